@@ -7,7 +7,11 @@ Driver for the election model (mode `elect`, executable `om_elect`), property C1
 State-building lines (answer `ok`):
   reset                                   forget everything
   begin                                   forget registry/staking/shuffle inputs, keep the current validator set
-  strict <0|1>                            spec uses the configured MaxValidators itself (1) or max(MaxValidators,1) (0)
+  strict <0|1>                            spec uses the configured MaxValidators itself (1, default) or max(MaxValidators,1) (0)
+  reach <0|1>                             0: the parameters were injected into state and are not reachable through genesis +
+                                          changeParameters (a model-correspondence case): the limits clause of the spec is not judged
+  change <min|n> <max|n> <dist|n> <accepted>   a governance parameter change went through the real changeParameters;
+                                          accepting a non-positive limit is a SPECFAIL
   params <minV> <maxV> <maxPerEntity> <bypassStake> <dist> <useVRF> <canElect> <weakAlpha> <fv261>
   epoch <e>
   thr <kind> <value>                      global stake threshold
@@ -37,7 +41,9 @@ open OasisModel.Proto OasisModel.Scheduler
 structure St where
   p : Params := { minValidators := 1, maxValidators := 100, maxPerEntity := 1 }
   epoch : Nat := 1
-  strict : Bool := false
+  strict : Bool := true
+  /-- the parameters are reachable (genesis-valid, changed only through changeParameters) -/
+  reach : Bool := true
   thr : List (Nat × Nat) := []
   accts : List (Nat × Account) := []
   nodes : List Node := []
@@ -167,14 +173,14 @@ def showCResult : CResult → String
 
 /-! ### spec evaluation on the implementation's answers, with a reason -/
 
-def whyValidators (i : Inputs) (strict : Bool) (vals : VMap) : String :=
+def whyValidators (i : Inputs) (strict : Bool) (judgeLimits : Bool) (vals : VMap) : String :=
   if !keysDistinct vals then "validators: duplicate consensus key"
   else if !vals.all (validatorEntryOk i) then
     match vals.find? (fun kv => !validatorEntryOk i kv) with
     | some kv => if i.all.any (backsValidator i kv.1 kv.2) then s!"validator {kv.1}: wrong voting power {kv.2.power}"
                  else s!"validator {kv.1}: not backed by an eligible registered node"
     | none => "validators: entry"
-  else if !validatorLimitsOk i.p strict vals then
+  else if judgeLimits && !validatorLimitsOk i.p strict vals then
     if !decide ((vals.length : Int) ≤ maxValidatorsBound i.p strict) then s!"validators: {vals.length} elected, MaxValidators={i.p.maxValidators}"
     else if !(decide (1 ≤ vals.length) && decide (i.p.minValidators ≤ (vals.length : Int))) then s!"validators: {vals.length} elected, MinValidators={i.p.minValidators}"
     else "validators: per-entity limit exceeded"
@@ -237,7 +243,7 @@ def doValidators (s : St) (top : Bool) (res : String) : St × String :=
       | none => ""
       | some m =>
         -- the helper form is handed nodes that skipped the top-level filter: the spec applies to the whole-epoch form
-        if top then whyValidators s.inputs s.strict m else ""
+        if top then whyValidators s.inputs s.strict s.reach m else ""
     let (mvals, mve) := match r with
       | .ok m vis => (some m, vis.map (·.entity))
       | _ => (none, [])
@@ -277,6 +283,24 @@ def step (s : St) (line : String) : St × String :=
   | ["strict", b] => match parseBool b with
     | some b => ({ s with strict := b }, "ok")
     | none => (s, "DIVERGE bad-op")
+  | ["reach", b] => match parseBool b with
+    | some b => ({ s with reach := b }, "ok")
+    | none => (s, "DIVERGE bad-op")
+  | ["change", a, b, c, acc] =>
+    let po (x : String) : Option (Option Int) := if x == "n" then some none else (parseInt x).map some
+    match po a, po b, parseOptNat c, parseBool acc with
+    | some mn, some mx, some d, some acc =>
+      let ch : ParamChange := { minValidators := mn, maxValidators := mx, dist := d }
+      let want := changeAccepted ch
+      if acc == want then (s, "ok")
+      else if acc then
+        -- a non-positive limit got through the parameter-change validation
+        let what := match mx with
+          | some v => if v ≤ 0 then s!"MaxValidators={v}" else s!"MinValidators={mn.getD 0}"
+          | none => if mn.isSome then s!"MinValidators={mn.getD 0}" else "an empty change"
+        (s, s!"SPECFAIL changeParameters accepted {what}")
+      else (s, "DIVERGE changeParameters rejected a valid change")
+    | _, _, _, _ => (s, "DIVERGE bad-op")
   | ["params", a, b, c, d, e, f, g, h, i] =>
     match parseInt a, parseInt b, parseInt c, parseBool d, e.toNat?, parseBool f, parseBool g, parseBool h, parseBool i with
     | some a, some b, some c, some d, some e, some f, some g, some h, some i =>
